@@ -265,6 +265,19 @@ Example legacy_path_nested_refuted :
   lib_legacy_preimage hash160 ex_tx_nested 1 1 <> spec_legacy_preimage hash160 ex_tx_nested 1 1.
 Proof. apply opt_eqb_false; vm_compute; reflexivity. Qed.
 
+(* class "witness type of an input inferred wrongly" (seeded change C01-u: a P2WPKH locking script passed with the keys is
+   no longer parsed, the input stays 'legacy'): the witness type an input holds selects the digest algorithm, and for a
+   native segwit input only the one of its kind (k_wtype) gives the consensus preimage — the legacy serialisation of the
+   same object does not.  The harness reads the type the library holds per input (`inf`) and compares it with k_wtype. *)
+Example wrong_witness_type_refuted :
+  (exists x, nth_error (st_ins ex_tx) 0 = Some x /\ k_wtype (si_kind x) = WT_segwit) /\
+  opt_eqb (lib_signature_at sha256d hash160 true ex_tx 0 1 WT_segwit) (spec_preimage sha256d hash160 ex_tx 0 1) = true /\
+  lib_signature_at sha256d hash160 true ex_tx 0 1 WT_legacy <> spec_preimage sha256d hash160 ex_tx 0 1.
+Proof.
+  split; [eexists; split; [reflexivity|reflexivity]|].
+  split; [vm_compute; reflexivity|apply opt_eqb_false; vm_compute; reflexivity].
+Qed.
+
 (* ---------- life cycle: a concrete object and session ---------- *)
 
 (* built with the default version; signed, looked at, relative locktime on input 0, verified, absolute locktime, input
